@@ -240,6 +240,60 @@ def run(prog: Program, ctx: Ctx) -> None:  # noqa: PLR0912,PLR0915
         leak = cfg.reach(starts, avoid=lambda x: x in sets or x in conts, normal_only=True)
         ctx.ob("R5", key(ha, "later-wins"), lp not in leak and cfg.exit not in leak, "on every other path the new attribute replaces the member (later definitions win)", where(ha, sets[0].stmt))
 
+    # imports: a later import always rebinds the name, except for the tabled self-alias cases
+    for hname, tabled in (("visit_import", ()), ("visit_importfrom", ("is_init_module", "alias_path != "))):
+        f = prog.function(f"{V}.{hname}")
+        cfg_i = cfg_of(f)
+        lps = [x for x in cfg_i.live_nodes() if x.kind == "for" and isinstance(x.stmt, ast.For) and unparse(x.stmt.iter) == "node.names"]
+        if len(lps) != 1:
+            raise AnalysisError(f"C01-R5: name loop of {hname} not found")
+        lpi = lps[0]
+        sm = [x for x in cfg_i.live_nodes() if x.kind == "stmt" and any(isinstance(c, ast.Call) and isinstance(c.func, ast.Attribute) and c.func.attr == "set_member"
+                                                                       for c in walk_no_nested(x.stmt, include_self=True))]
+
+        def tabled_edge(a, _b, label, tabled=tabled):
+            if a.kind != "test" or a.expr is None or label not in "TF":
+                return False
+            txt = unparse(a.expr)
+            # the tabled skip is the branch that does NOT lead to the alias: T of the init-module special case, F of the self-alias guard
+            if "is_init_module" in txt and "is_init_module" in tabled and label == "T":
+                return True
+            return bool(txt.startswith("alias_path != ") and "alias_path != " in tabled and label == "F")
+
+        starts = [b for b, lab in cfg_i.succ[lpi] if lab == "T"]
+        leak = cfg_i.reach(starts, avoid=lambda x: x in sm, avoid_edge=tabled_edge, normal_only=True)
+        ok = lpi not in leak and cfg_i.exit not in leak
+        ctx.ob("R5", key(f, "import-rebinds"), ok,
+               "every imported name (re)binds its member: the only skips are the tabled self-alias cases (later statements win, also over an earlier "
+               "definition or a type-guarded import of the same name)" if ok else
+               "an iteration of the import loop can skip set_member outside the tabled self-alias cases: a later import would not displace the earlier binding",
+               where(f, lpi.stmt))
+
+    # ------------------------------------------------------------------ R9 never raising on unsupported node kinds
+    ctx.rule("R9", "no KeyError from the node-kind lookup tables (unsupported target / expression kinds) escapes a visitor handler")
+    from sa.callgraph import CallGraph
+    from sa.excflow import ExcFlow
+
+    def intrinsic(fn, n):
+        if isinstance(n, ast.Subscript) and isinstance(n.ctx, ast.Load) and isinstance(n.value, ast.Name) and isinstance(n.slice, ast.Call) and dotted(n.slice.func) == "type":
+            tbl = fn.module.assigns.get(n.value.id)
+            if isinstance(tbl, ast.Dict):
+                return ["KeyError"]
+        return []
+
+    cgx = CallGraph(prog)
+    ef = ExcFlow(prog, cgx, intrinsic)
+    handlers = [m for defs in vis.methods.values() for m in defs]
+    ef.compute(handlers)
+    n_tables = sum(1 for m in prog.modules.values() for fn_ in prog.functions.values() if fn_.module is m for n in walk_no_nested(fn_.node) if intrinsic(fn_, n))
+    ctx.expect_min("R9", n_tables, 4)
+    for m in handlers:
+        if not (m.name.startswith(("visit", "handle")) or m.name in ("get_module", "generic_visit")):
+            continue
+        r = ef.escapes(m).get("KeyError")
+        ctx.ob("R9", key(m, "no-KeyError"), r is None, f"{m.name} lets no table-lookup KeyError escape" if r is None else
+               f"{m.name} can raise KeyError for an unsupported node kind: {r.describe()}", where(m))
+
     # ------------------------------------------------------------------ R6 visibility tables
     ctx.rule("R6", "is_public / is_private / is_special / is_class_private / is_imported / is_exported / is_wildcard_exposed equal the documented "
                    "decision table on every abstract state (public x alias x module x name class x parent kind x __all__ x imported [x runtime])")
